@@ -12,9 +12,9 @@ T = {
          "inductive invariant over action traces + gated trace replay"),
  "C03": ("conn", "proof (partial): sweep / refusal / no-blocked-caller / received-wins theorems on the connection machine; wall-clock promptness is measured by the harness only.",
          "inductive invariant over action traces + gated trace replay"),
- "C04": ("server", "proof (partial): exec-once / one-response / no-phantom theorems on the per-connection server machine in its four modes; poll-mode scheduling compared on final logs only.",
+ "C04": ("server", "proof (partial): exec-once / one-response / no-phantom theorems on the per-connection server machine in its four modes; poll-mode scheduling compared on final logs only. The clause 'the library never retries' is checked on the Transport by snapshot-step correspondence (one Call refines to one getConn and one registration) and by per-call execution counts under cut connections, not by a theorem of its own; arguments are compared byte for byte over header encoders x modes x sizes around every length-prefix boundary.",
          "inductive invariant over server machine + trace replay"),
- "C05": ("server", "proof (partial): FIFO theorems for the single-worker queue transcription and order theorems for server and client pipelining; the real scheduler's goroutine hand-offs are exercised only.",
+ "C05": ("server", "proof (partial): FIFO theorems for the single-worker queue transcription and order theorems for server and client pipelining; the real scheduler's goroutine hand-offs are exercised only; independence of connections (poll and non-poll listeners) is exercised over real sockets with several connections at once, not modelled.",
          "refinement to FIFO spec + trace replay"),
  "C06": ("conn", "proof (partial): verbatim text, reply-untouched, isolation and no-residue theorems on the connection machine and wire round trips; sync.Pool reuse is provoked, not forced.",
          "inductive invariant + wire round-trip theorems + trace replay"),
@@ -23,7 +23,7 @@ T = {
  "C08": ("wire", "proof (partial): totality (never Panic) of every pb/code/upgrade decoder on every byte string, dispatch totality for all 256 flag bytes, teardown-order safety read from source; json decoder and panics inside dependencies are exercised only.",
          "totality theorems over Panic-explicit model + malformed-input differential"),
  "C09": ("stream", "proof (partial): per-stream FIFO delivery and routing invariants on the composed stream model; correspondence by trace replay.", "inductive invariant + trace replay"),
- "C10": ("stream", "proof (partial): unblocking theorems for close / connection loss on the stream model; promptness measured only.", "progress of fair drain + trace replay"),
+ "C10": ("stream", "proof (partial): unblocking theorems for close / connection loss / server teardown (incl. opens still queued at the loss) on the stream model, in every reachable state; promptness measured only; poll mode exercised over a real socket.", "progress of fair drain + trace replay"),
  "C11": ("buf", "proof (partial): ownership discipline of the buffer-heap model (hand-off regions are never written again) for every pool choice; real pool reuse is provoked, not forced.", "ownership invariant + digest re-verification"),
  "C12": ("opt", "proof (partial): resolution agreement of Dial/Listen option resolution and mode-independence via the specification outcome; the network cross product is exercised only.", "equational theorem + configuration sweep"),
  "C13": ("pool", "proof: per-host bounds as an inductive invariant of the transport pool machine under every interleaving of its actions; snapshot-step correspondence with the real Transport.", "inductive invariant + snapshot-step refinement check"),
@@ -32,7 +32,7 @@ T = {
  "C16": ("lb", "proof: live-subset / route-current / after-update invariants of the load-balancing client machine for every trace; snapshot-step correspondence.", "inductive invariant + snapshot-step refinement check"),
  "C17": ("lb", "proof (partial): round-robin window, random-in-live, heap-root-minimal, probe-rate and EWMA theorems; float64 rounding of the EWMA is compared with a tolerance.", "theorems on transcribed scheduler/heap + function-level differential"),
  "C18": ("lb", "proof (partial): no-stranded-waiter / close-now / error-kind theorems on the waiter machine; detection time is measured only.", "inductive invariant + scripted-health replay"),
- "C19": ("conn", "proof (partial): ctx-enabled / reply-first / no-recycle / isolation theorems on the connection machine; promptness while blocked in the kernel is not claimed.", "inductive invariant + gated trace replay"),
+ "C19": ("conn", "proof (partial): ctx-enabled / reply-first / no-recycle / isolation theorems on the connection machine; promptness while blocked in the kernel is not claimed; through the Transport (a call given up at its deadline leaves the pooled connection and its other calls alone) by snapshot-step correspondence with the pool machine.", "inductive invariant + gated trace replay"),
  "C20": ("life", "proof (partial): ledger-empties-after-close and idempotence theorems; goroutine exit itself is observed by the harness.", "progress of fair drain over resource ledger + lifecycle replay"),
 }
 
